@@ -1236,3 +1236,149 @@ Proof.
   exists r0, r1. split; [exact E|]. intros x Hx.
   apply (residual_to_backward a b c x (16 * eps)); [lra|]. exact (B x Hx).
 Qed.
+
+(* both returned values at once, relationally *)
+Lemma quad_simultaneous_rel (eps : R) (a b c bb a4 ac4 dh sh pr m' th q r0 r1 : C) :
+  0 <= eps <= / 100 -> a <> C0 ->
+  relc eps bb (b * b)%C -> relc eps a4 (a * RtoC (INR 4))%C -> relc eps ac4 (a4 * c)%C -> relc eps dh (bb - ac4)%C ->
+  (exists w : C, (w * w)%C = dh /\ relc eps sh w) -> relc eps pr (Cconj b * sh)%C ->
+  let sg := if (if Rle_dec 0 (fst pr) then true else false) then 1 else Ropp 1 in
+  relc eps m' (sh * RtoC sg)%C -> relc eps th (b + m')%C -> relc eps q (th * RtoC (- / 2))%C ->
+  relc eps r0 (q / a)%C -> q <> C0 -> relc eps r1 (c / q)%C ->
+  exists db dc : C,
+    (forall x : C, (a * x * x + (b + db) * x + (c + dc))%C = (a * (x - r0) * (x - r1))%C) /\
+    Cmod dc <= (2 * eps + eps * eps) * Cmod c /\
+    Cmod db * Cmod db <= (16 * eps) * (16 * eps) * (Cmod b * Cmod b + 4 * (Cmod a * Cmod c)).
+Proof.
+  intros Heps Ha Hbb Ha4 Hac4 Hdh Hsq Hpr sg Hm Hth Hq Hrr0 Nq Hrr1.
+  destruct (quad_core_rel eps a b c bb a4 ac4 dh sh pr m' th q Heps Hbb Ha4 Hac4 Hdh Hsq Hpr Hm Hth Hq)
+    as (Hsg & HD & NC & rho & Eq & Hr & HE).
+  fold sg in Hsg, NC, Eq, HE.
+  set (qx := ((b + sh * RtoC sg) * RtoC (- / 2))%C) in *.
+  assert (Eqx : qx = ((b + sh * RtoC sg) * RtoC (- / 2))%C) by reflexivity.
+  destruct Heps as [eps_nonneg He]. unfold relc in Hrr0, Hrr1.
+  destruct (numeric_bounds eps (conj eps_nonneg He)) as (N1 & N2 & N3 & N4 & N5).
+  set (X5 := (1 + eps) * (1 + eps) * (1 + eps) * (1 + eps) * (1 + eps)) in *.
+  set (Xq := (1 + eps * (1 + eps)) * (1 + eps) * (1 + eps)) in *.
+  assert (Xq2 : Xq < 2) by lra.
+  pose proof (near_nz _ _ Hr Xq2) as Hrho.
+  assert (Nqx : qx <> C0) by (intros Zx; apply Nq; rewrite Eq, Zx; ring).
+  destruct (rel_mult eps _ _ eps_nonneg Hrr0) as (d9 & D9 & E9).
+  destruct (rel_mult eps _ _ eps_nonneg Hrr1) as (d10 & D10 & E10).
+  set (rho0 := (rho * (C1 + d9))%C). set (rho1 := ((C1 + d10) * / rho)%C).
+  assert (Hr0 : near rho0 (1 + 4.19 * eps)).
+  { eapply near_mono; [apply near_mul; [exact Hr|apply near_1pd; exact D9]|]. lra. }
+  assert (Hr1 : near rho1 (1 + 4.19 * eps)).
+  { eapply near_mono; [apply near_mul; [apply near_1pd; exact D10|apply near_inv; [exact Hr|exact Xq2]]|]. lra. }
+  assert (Er0 : r0 = (qx / a * rho0)%C) by (rewrite E9, Eq; unfold rho0; field; exact Ha).
+  assert (Er1 : r1 = (c / qx * rho1)%C) by (rewrite E10, Eq; unfold rho1; field; split; assumption).
+  exists (- (a * (r0 + r1)) - b)%C, (a * r0 * r1 - c)%C.
+  split; [intros x; ring|]. split.
+  - replace (a * r0 * r1 - c)%C with (c * ((C1 + d9) * (C1 + d10)) - c)%C.
+    2:{ rewrite Er0, Er1. unfold rho0, rho1. field. repeat split; assumption. }
+    eapply Rle_trans; [apply near_pert; apply near_mul; apply near_1pd; eassumption|]. apply Req_le. ring.
+  - set (E := (qx * qx + b * qx + a * c)%C) in *.
+    assert (Edb : (- (a * (r0 + r1)) - b)%C = (- (qx * (rho0 - C1)) - a * c / qx * (rho1 - C1) - E / qx)%C).
+    { rewrite Er0, Er1. unfold E. field. split; assumption. }
+    rewrite Edb.
+    set (u := Cmod qx) in *. set (A := Cmod a * Cmod c) in *.
+    assert (Pu : 0 < u) by (now apply Cmod_gt_0).
+    assert (PA : 0 <= A) by (unfold A; apply Rmult_le_pos; apply Cmod_ge_0).
+    set (v := A / u).
+    assert (Pv : 0 <= v) by (unfold v, Rdiv; apply Rmult_le_pos; [exact PA | apply Rlt_le, Rinv_0_lt_compat; exact Pu]).
+    assert (X5pos : 0 <= X5 - 1).
+    { pose proof (near_ge1 _ _ Hr). unfold X5. assert (1 <= (1 + eps) * (1 + eps)) by nra.
+      assert (1 <= (1 + eps) * (1 + eps) * (1 + eps)) by nra.
+      assert (1 <= (1 + eps) * (1 + eps) * (1 + eps) * (1 + eps)) by nra. nra. }
+    (* |db| <= 9.36 eps (u + v) *)
+    assert (B1 : Cmod (- (qx * (rho0 - C1)) - a * c / qx * (rho1 - C1) - E / qx)%C <= 9.36 * eps * (u + v)).
+    { eapply Rle_trans; [apply Cmod_minus_le|]. eapply Rle_trans; [apply Rplus_le_compat_r; apply Cmod_minus_le|].
+      rewrite Cmod_opp, !Cmod_mult, !Cmod_div by exact Nqx. rewrite Cmod_mult. fold u A.
+      unfold near in Hr0, Hr1.
+      assert (T1 : u * Cmod (rho0 - C1)%C <= u * (4.19 * eps)) by (apply Rmult_le_compat_l; lra).
+      assert (T2 : A / u * Cmod (rho1 - C1)%C <= A / u * (4.19 * eps)) by (apply Rmult_le_compat_l; [exact Pv|lra]).
+      assert (T3 : Cmod E / u <= 5.17 * eps * u + 5.11 * eps * v).
+      { unfold v. apply (Rmult_le_reg_r u); [exact Pu|].
+        replace (Cmod E / u * u) with (Cmod E) by (field; lra).
+        replace ((5.17 * eps * u + 5.11 * eps * (A / u)) * u) with (5.17 * eps * (u * u) + 5.11 * eps * A) by (field; lra).
+        assert (0 <= u * u) by nra.
+        assert ((X5 - 1) / (1 - eps) * (u * u) <= 5.17 * eps * (u * u)) by (apply Rmult_le_compat_r; lra).
+        assert ((X5 - 1) * A <= 5.11 * eps * A) by (apply Rmult_le_compat_r; lra).
+        lra. }
+      fold v in T2 |- *. assert (0 <= eps * v) by (apply Rmult_le_pos; assumption). nra. }
+    (* u^2 + v^2 <= 1.31 (|b|^2 + 4A) *)
+    set (P := Cmod b * Cmod b + 4 * A) in *.
+    pose proof (Cmod_ge_0 b) as Pb. pose proof (Cmod_ge_0 sh) as Ps.
+    assert (PP : 0 <= P) by (unfold P; nra).
+    assert (Hh : X5 - 1 <= 0.0511) by lra.
+    assert (Ssq : Cmod sh * Cmod sh <= (1 + (X5 - 1)) * P /\ 4 * A - Cmod b * Cmod b - (X5 - 1) * P <= Cmod sh * Cmod sh).
+    { rewrite <- Cmod_mult.
+      assert (DD : Cmod (qdisc a b c) <= P /\ 4 * A - Cmod b * Cmod b <= Cmod (qdisc a b c)).
+      { unfold qdisc, P. split.
+        - eapply Rle_trans; [apply Cmod_minus_le|]. rewrite !Cmod_mult, Cmod_INR4. unfold A. lra.
+        - assert (K : Cmod (a * RtoC (INR 4) * c)%C <= Cmod (b * b - a * RtoC (INR 4) * c)%C + Cmod (b * b)%C).
+          { replace (a * RtoC (INR 4) * c)%C with (- (b * b - a * RtoC (INR 4) * c) + b * b)%C at 1 by ring.
+            eapply Rle_trans; [apply Cmod_triangle|]. rewrite Cmod_opp. lra. }
+          rewrite !Cmod_mult, Cmod_INR4 in K. unfold A. lra. }
+      assert (T : Cmod (sh * sh)%C <= Cmod (qdisc a b c) + Cmod (sh * sh - qdisc a b c)%C).
+      { replace (sh * sh)%C with (qdisc a b c + (sh * sh - qdisc a b c))%C at 1 by ring. apply Cmod_triangle. }
+      assert (T' : Cmod (qdisc a b c) <= Cmod (sh * sh)%C + Cmod (sh * sh - qdisc a b c)%C).
+      { replace (qdisc a b c) with (sh * sh + - (sh * sh - qdisc a b c))%C at 1 by ring.
+        eapply Rle_trans; [apply Cmod_triangle|]. rewrite Cmod_opp. lra. }
+      fold A in HD. fold P in HD. lra. }
+    destruct Ssq as [Ss1 Ss2].
+    assert (Uq : u * u <= 1.03 * P).
+    { assert (U1 : u <= (Cmod b + Cmod sh) / 2).
+      { unfold u. rewrite Eqx, Cmod_mult, Cmod_mhalf.
+        assert (Cmod (b + sh * RtoC sg)%C <= Cmod b + Cmod sh).
+        { eapply Rle_trans; [apply Cmod_triangle|]. rewrite Cmod_mult, Cmod_R.
+          destruct Hsg as [-> | ->]; [rewrite Rabs_R1 | rewrite Rabs_Ropp, Rabs_R1]; lra. }
+        lra. }
+      assert (U2 : u * u <= ((Cmod b + Cmod sh) / 2) * ((Cmod b + Cmod sh) / 2)) by (apply Rmult_le_compat; lra).
+      assert (0 <= (Cmod b - Cmod sh) * (Cmod b - Cmod sh)) by apply Rle_0_sqr.
+      assert (Cmod b * Cmod b <= P) by (unfold P; lra). nra. }
+    assert (Lq : 0.89 * A <= u * u).
+    { fold u in NC.
+      assert (K : (1 + (X5 - 1)) * (Cmod b * Cmod b + Cmod sh * Cmod sh) >= 4 * A * (1 - (X5 - 1))).
+      { unfold P in Ss2. nra. }
+      assert (K2 : (1 + (X5 - 1)) * (4 * (u * u)) >= (1 - eps) * (4 * A * (1 - (X5 - 1)))) by nra.
+      nra. }
+    assert (Vq : v * v <= 1.13 * A).
+    { unfold v. apply (Rmult_le_reg_r (u * u)); [nra|].
+      replace (A / u * (A / u) * (u * u)) with (A * A) by (field; lra). nra. }
+    assert (UV : (u + v) * (u + v) <= 2.63 * P).
+    { assert (0 <= (u - v) * (u - v)) by apply Rle_0_sqr. unfold P in *. nra. }
+    set (m := Cmod (- (qx * (rho0 - C1)) - a * c / qx * (rho1 - C1) - E / qx)%C) in *.
+    assert (Pm : 0 <= m) by apply Cmod_ge_0.
+    assert (M2 : m * m <= (9.36 * eps * (u + v)) * (9.36 * eps * (u + v))) by (apply Rmult_le_compat; lra).
+    assert (M3 : (9.36 * eps * (u + v)) * (9.36 * eps * (u + v)) <= (9.36 * eps) * (9.36 * eps) * (2.63 * P)).
+    { replace ((9.36 * eps * (u + v)) * (9.36 * eps * (u + v))) with ((9.36 * eps) * (9.36 * eps) * ((u + v) * (u + v))) by ring.
+      apply Rmult_le_compat_l; [nra|exact UV]. }
+    assert (M4 : (9.36 * eps) * (9.36 * eps) * (2.63 * P) <= (16 * eps) * (16 * eps) * P).
+    { assert (0 <= eps * eps * P) by (apply Rmult_le_pos; [nra|exact PP]). nra. }
+    lra.
+Qed.
+
+Theorem quadratic_simultaneous_local_lemma (eps : R) (O : RoundOps) (a b c : C) :
+  0 <= eps <= / 100 -> a <> C0 -> quad_ops_ok eps O a b c ->
+  exists r0 r1 db dc : C, poly_solve (RoundRAo eps O) [c; b; a] false = Ok ([r0; r1], []) /\
+    (forall x : C, (a * x * x + (b + db) * x + (c + dc))%C = (a * (x - r0) * (x - r1))%C) /\
+    Cmod dc <= (2 * eps + eps * eps) * Cmod c /\
+    Cmod db * Cmod db <= (16 * eps) * (16 * eps) * (Cmod b * Cmod b + 4 * (Cmod a * Cmod c)).
+Proof.
+  intros Heps Hnz H. unfold quad_ops_ok in H. cbv zeta in H.
+  destruct H as (H1 & H2 & H3 & H4 & H5 & H6 & H7 & H8 & H9 & H10 & H11).
+  rewrite poly_solve_deg2_o_eq. unfold o_q, q_q, q_sgn, q_disc.
+  match goal with |- context [Ceq_dec ?q C0] => set (qq := q) in * end.
+  destruct (Ceq_dec qq C0) as [Z|NZ].
+  - destruct (quad_residual_rel eps a b c _ _ _ _ _ _ _ _ _ _ Heps Hnz H1 H2 H3 H4 H5 H6 H7 H8 H9 H10) as (_ & _ & B2).
+    destruct (B2 Z) as [Zb Zc].
+    assert (Zr : o_div O qq a = C0).
+    { unfold relc in H10. rewrite Z in H10. replace (C0 / a)%C with C0 in H10 by (field; exact Hnz).
+      rewrite Cmod_0, Rmult_0_r in H10. rewrite Z. now apply Cmod_sub_0. }
+    exists (o_div O qq a), (o_div O qq a), C0, C0. split; [reflexivity|].
+    rewrite Zr, Zb, Zc. split; [intros x; ring|]. rewrite !Cmod_0. split; nra.
+  - destruct (quad_simultaneous_rel eps a b c _ _ _ _ _ _ _ _ _ (o_div O qq a) (o_div O c qq) Heps Hnz H1 H2 H3 H4 H5 H6 H7 H8 H9 H10 NZ (H11 NZ))
+      as (db & dc & I & Bc & Bb).
+    exists (o_div O qq a), (o_div O c qq), db, dc. split; [reflexivity|]. split; [exact I|]. split; assumption.
+Qed.
